@@ -282,7 +282,11 @@ impl<const N: usize> CdrDeserialize for [u8; N] {
 }
 impl CdrDeserialize for String {
     fn cdr_deserialize<'a>(de: &mut CdrDeserializer<'a>) -> CdrResult<Self> {
+        // The length counts the terminating zero: a string of length 0 does not exist
         let length = UnsignedLong::cdr_deserialize(de)?;
+        if length == 0 {
+            return Err(CdrError::InvalidData);
+        }
         let character_data = de.read_bytes(length as usize - 1)?.to_vec();
         Octet::cdr_deserialize(de)?; // 0-termination
         String::from_utf8(character_data).map_err(|_| CdrError::InvalidData)
